@@ -2,6 +2,7 @@
    Holds for every record (valid or not), every operation, every signer (failing, lying, of any
    output length) and every behaviour of the crypto cores. *)
 Require Import Enr.Bytes Enr.Consts Enr.Rlp Enr.SortedMap Enr.Keccak Enr.Record Enr.Update Enr.Spec.
+Require Import Enr.Stmt Enr.Toy EnrProofs.Thm_Stmt.
 Require Import EnrProofs.Thm_Update EnrProofs.Thm_Valid.
 Open Scope N_scope.
 
@@ -39,3 +40,38 @@ Proof.
   split; [exact Hv|]. destruct (Thm_Valid.valid_observables c kt r Hv) as (pk & _ & Hver & _). exact Hver.
 Qed.
 Print Assumptions err_still_valid.
+
+(* ---- the same at the level of statements (theories/Stmt.v): the Rust bodies written out statement by statement over the
+   caller's record and the working copy `new_enr`; `?` stops the body where it stands; `*self = new_enr` is a statement.
+   (a) every body of the update API has its only commit as the last statement; (b) such a body leaves the caller's record
+   untouched unless it ends with Ok — whatever was done to the working copy, wherever it stopped; (c) running a body
+   statement by statement gives exactly the outcome and the caller's record of the functional model [step], so all
+   theorems about [step] are theorems about these bodies. ---- *)
+Theorem prog_commit_last : forall o k sg, exists pre, prog_of o k sg = pre ++ [SCommit] /\ Forall (fun s => s <> SCommit) pre.
+Proof. exact Thm_Stmt.prog_commit_last. Qed.
+Print Assumptions prog_commit_last.
+
+Theorem commit_last_atomic : forall (c : crypto) kt p m x m',
+  Forall (fun s => s <> SCommit) p -> exec c kt (p ++ [SCommit]) m = (x, m') -> x <> Ok tt -> self_r m' = self_r m.
+Proof. exact Thm_Stmt.commit_last_atomic. Qed.
+Print Assumptions commit_last_atomic.
+
+Theorem call_not_ok_unchanged : forall (c : crypto) kt o k sg r x r',
+  call c kt (prog_of o k sg) r = (x, r') -> x <> Ok tt -> r' = r.
+Proof. exact Thm_Stmt.call_not_ok_unchanged. Qed.
+Print Assumptions call_not_ok_unchanged.
+
+Theorem call_is_step : forall (c : crypto) kt o r k sg,
+  call c kt (prog_of o k sg) r =
+  (match fst (step c kt r o k sg) with Ok _ => Ok tt | Err e => Err e | Panic => Panic end, snd (step c kt r o k sg)).
+Proof. exact Thm_Stmt.call_is_step. Qed.
+Print Assumptions call_is_step.
+
+(* non-vacuity: the toy record's set_tcp4 body, run statement by statement, ends with Ok and commits *)
+Example toy_body_runs :
+  match toy_built with
+  | Ok r => fst (call toy_crypto Toy (prog_of (OSetTcp4 8080) (toy_key toy_pk1) (toy_signer toy_pk1 [])) r) = Ok tt /\
+            snd (call toy_crypto Toy (prog_of (OSetTcp4 8080) (toy_key toy_pk1) (toy_signer toy_pk1 [])) r) <> r
+  | _ => False
+  end.
+Proof. vm_compute. split; [reflexivity | discriminate]. Qed.
